@@ -208,6 +208,123 @@ def replay_upgma(job):
     return calls, _thin(fails)
 
 
+# ------------------------------------------------------- histories of calls on one matrix
+def _make_object(form, dists):
+    from cogent3.evolve.fast_distance import DistanceMatrix
+    from cogent3.util.dict_array import DictArray
+
+    if form == "dict":
+        return dict(dists)
+    if form == "DictArray":
+        return DictArray(dict(dists))
+    return DistanceMatrix(dict(dists))
+
+
+def _matrix_view(obj):
+    """what a matrix object (or a dict of pairs) shows: {(a, b): d}, diagonal included when it has one"""
+    if isinstance(obj, dict):
+        return {k: float(v) for k, v in obj.items()}
+    names = [str(x) for x in obj.template.names[0]]
+    arr = numpy.asarray(obj.array, dtype=float)
+    return {(a, b): float(arr[i, j]) for i, a in enumerate(names) for j, b in enumerate(names)}
+
+
+def _same_matrix(view, D, name):
+    """view shows exactly the distances D over the names (zero diagonal where it has one)"""
+    n = len(name)
+    want = {(name[i], name[j]): float(D[i - 1][j - 1]) for i in range(1, n + 1) for j in range(1, n + 1)}
+    for k, v in view.items():
+        if k not in want or v != want[k]:
+            return False
+    return all(k in view for k in want if k[0] != k[1])
+
+
+def _builder(b, obj):
+    from cogent3.cluster.UPGMA import upgma
+    from cogent3.phylo.nj import gnj, nj
+
+    if b == "upgma":
+        return upgma(obj)
+    if b == "nj":
+        return nj(obj, show_progress=False)
+    if b == "gnj":
+        return gnj(obj, keep=1, show_progress=False)[0][1]
+    if b == "quick_tree":
+        return obj.quick_tree()
+    if b == "app_quick_tree":
+        app = _ENTRIES.get("qt_app")
+        if app is None:
+            from cogent3 import get_app
+
+            app = _ENTRIES["qt_app"] = get_app("quick_tree")
+        r = app(obj)
+        if not hasattr(r, "get_tip_names"):
+            raise RuntimeError(f"app returned {r!r}")
+        return r
+    if b == "take_dists":
+        return obj.take_dists(list(reversed(list(obj.names))))
+    if b == "drop_invalid":
+        return obj.drop_invalid()
+    if b == "to_dict":
+        return obj.to_dict()
+    raise ValueError(b)
+
+
+def replay_calls(job):
+    """DistanceCalls.tla transitions: build ONE object, make the calls of `hist` on it, then the call
+    under test; the object must still show `held` and the result must be the spec's."""
+    recs, seed, tier = job
+    fails = []
+    calls = unreachable = 0
+    for ri, rec in enumerate(recs):
+        f, to = rec["from"], rec["to"]
+        n, form, hist, b = f["n"], f["form"], f["hist"], rec["act"]
+        perm = tuple((k + ri) % n for k in range(n))
+        name, dists = tree_inputs({"from": {"n": n, "D": f["held"]}}, perm)
+        obj = _make_object(form, dists)
+        try:
+            for h in hist:
+                _builder(h, obj)
+        except Exception:
+            unreachable += 1  # reported by the transition that made that call
+            continue
+        calls += 1
+        key = f"calls:{b}:{form}:after={'+'.join(hist) or 'nothing'}"
+        detail = {"form": form, "history": hist, "call": b, "names": name,
+                  "input": [[list(k), v] for k, v in dists.items()], "spec_result": to["ret"]}
+        try:
+            res = _builder(b, obj)
+        except Exception as ex:
+            fails.append((key + ":raised", {**detail, "observed": repr(ex)}))
+            res = None
+        view = _matrix_view(obj)
+        if not _same_matrix(view, to["held"], name):
+            fails.append((key + ":input-modified", {**detail, "matrix_after": [[list(k), v] for k, v in view.items()]}))
+        if res is None:
+            continue
+        kind = to["ret"]["kind"]
+        try:
+            if kind == "matrix":
+                what = None if _same_matrix(_matrix_view(res), to["ret"]["D"], name) else "matrix-values"
+                shown = repr(_matrix_view(res))
+            else:
+                pseudo = {"to": {"edges": to["ret"]["edges"]}}
+                if kind == "rooted":
+                    exp, obs = expected_rooted(pseudo, name), project_rooted(res)
+                else:
+                    exp, obs = expected_unrooted(pseudo, name), project_unrooted(res)
+                if sorted(res.get_tip_names()) != sorted(name.values()):
+                    what = "tips"
+                else:
+                    what = compare_tree(obs, exp, res.get_distances(), to["held"], name)
+                shown = str(res)
+        except Exception as ex:
+            what, shown = "result-unreadable", repr(ex)
+        if what:
+            fails.append((f"{key}:{what}", {**detail, "observed": shown}))
+    return calls, unreachable, _thin(fails)
+
+
 # ----------------------------------------------------------------------- distances
 # cnt is the 4x4 count matrix in the order A, C, G, T (rows: first sequence)
 A, C, G, T = 0, 1, 2, 3
